@@ -20,6 +20,7 @@ import ElfioVerif.Model.Symbols
 import ElfioVerif.Model.Reloc
 import ElfioVerif.Model.Arrange
 import ElfioVerif.Model.Versym
+import ElfioVerif.Model.Dynamic
 import ElfioVerif.Model.Load
 import ElfioVerif.Gen.SitesC18
 namespace ElfioVerif
@@ -349,7 +350,7 @@ def needLoop (e : Enc) (data : Option Bytes) (size : BitVec 64) (no : BitVec 32)
         match rd32 "verneed/vn_aux" data (vn' + Elfxx_Verneed.vn_aux_off) with
         | .error er => .error er
         | .ok ax =>
-          needLoop e data size no f (i + 1)
+          needLoop e data size no f (vr_i_incr i)
             (tq_vr_pos_incr pos next, vn', vn' + (vr_aux_off1 (cv32 e) (verneed_vn_aux := ax)).toNat)
     else pure (some (pos, vn, va))
 
@@ -362,7 +363,7 @@ def needGet (e : Enc) (b : SecBuf) (str : Option SecBuf) (num no : BitVec 32) : 
   match rd32 "verneed/vn_aux" data Elfxx_Verneed.vn_aux_off with
   | .error er => .error er
   | .ok ax0 =>
-    match needLoop e data b.size no (no.toNat + 1) 0 (0, 0, (vr_aux_off0 (cv32 e) (verneed_vn_aux := ax0)).toNat) with
+    match needLoop e data b.size no (no.toNat + 1) vr_i_init (tq_vr_pos_init, 0, (vr_aux_off0 (cv32 e) (verneed_vn_aux := ax0)).toNat) with
     | .error er => .error er
     | .ok none => pure none
     | .ok (some (pos, vn, va)) =>
@@ -376,9 +377,12 @@ def needGet (e : Enc) (b : SecBuf) (str : Option SecBuf) (num no : BitVec 32) : 
           match rd32 "verneed/vna_name" data (va + Elfxx_Vernaux.vna_name_off) with
           | .error er => .error er
           | .ok nidx =>
-            match strLookup str (vr_file_idx (cv32 e) (verneed_vn_file := fidx)),
-                  strLookup str (vr_name_idx (cv32 e) (veraux_vna_name := nidx)) with
-            | some file, some name =>
+            let fileP := strLookup str (vr_file_idx (cv32 e) (verneed_vn_file := fidx))
+            let depP := strLookup str (vr_name_idx (cv32 e) (veraux_vna_name := nidx))
+            -- a name is not inside the string table
+            if tq_vr_names_bad fileP.isNone depP.isNone then pure none else
+              let file := fileP.getD []
+              let name := depP.getD []
               match rd16 "verneed/vn_version" data (vn + Elfxx_Verneed.vn_version_off) with
               | .error er => .error er
               | .ok version =>
@@ -395,7 +399,6 @@ def needGet (e : Enc) (b : SecBuf) (str : Option SecBuf) (num no : BitVec 32) : 
                                    hash := vr_hash (cv32 e) (veraux_vna_hash := hash),
                                    flags := vr_flags (cv16 e) (veraux_vna_flags := flags),
                                    other := vr_other (cv16 e) (veraux_vna_other := other), name })
-            | _, _ => pure none      -- a name is not inside the string table
 
 /-- the loop of `versym_d_section_accessor::get_entry` -/
 def defLoop (e : Enc) (data : Option Bytes) (size : BitVec 64) (no : BitVec 32) :
@@ -412,7 +415,7 @@ def defLoop (e : Enc) (data : Option Bytes) (size : BitVec 64) (no : BitVec 32) 
         match rd32 "verdef/vd_aux" data (vd' + Elfxx_Verdef.vd_aux_off) with
         | .error er => .error er
         | .ok ax =>
-          defLoop e data size no f (i + 1)
+          defLoop e data size no f (vd_i_incr i)
             (tq_vd_pos_incr pos next, vd', vd' + (vd_aux_off1 (cv32 e) (verdef_vd_aux := ax)).toNat)
     else pure (some (pos, vd, va))
 
@@ -424,7 +427,7 @@ def defGet (e : Enc) (b : SecBuf) (str : Option SecBuf) (num no : BitVec 32) : M
   match rd32 "verdef/vd_aux" data Elfxx_Verdef.vd_aux_off with
   | .error er => .error er
   | .ok ax0 =>
-    match defLoop e data b.size no (no.toNat + 1) 0 (0, 0, (vd_aux_off0 (cv32 e) (verdef_vd_aux := ax0)).toNat) with
+    match defLoop e data b.size no (no.toNat + 1) vd_i_init (tq_vd_pos_init, 0, (vd_aux_off0 (cv32 e) (verdef_vd_aux := ax0)).toNat) with
     | .error er => .error er
     | .ok none => pure none
     | .ok (some (pos, vd, va)) =>
@@ -435,9 +438,10 @@ def defGet (e : Enc) (b : SecBuf) (str : Option SecBuf) (num no : BitVec 32) : M
         match rd32 "verdef/vda_name" data (va + Elfxx_Verdaux.vda_name_off) with
         | .error er => .error er
         | .ok nidx =>
-          match strLookup str (vd_name_idx (cv32 e) (verdaux_vda_name := nidx)) with
-          | none => pure none
-          | some name =>
+          let depP := strLookup str (vd_name_idx (cv32 e) (verdaux_vda_name := nidx))
+          -- the name is not inside the string table
+          if tq_vd_names_bad depP.isNone then pure none else
+            let name := depP.getD []
             match rd16 "verdef/vd_flags" data (vd + Elfxx_Verdef.vd_flags_off) with
             | .error er => .error er
             | .ok flags =>
@@ -450,6 +454,44 @@ def defGet (e : Enc) (b : SecBuf) (str : Option SecBuf) (num no : BitVec 32) : M
                   pure (some { flags := vd_flags (cv16 e) (verdef_vd_flags := flags),
                                ndx := vd_ndx (cv16 e) (verdef_vd_ndx := ndx),
                                hash := vd_hash (cv32 e) (verdef_vd_hash := hash), name })
+
+/-! ### the constructors of the version requirement / definition accessors (entry count from `.dynamic`) -/
+
+/-- the `for ( Elf_Xword i = 0; i < dyn_sec_num; ++i )` loop of the two constructors: the (truncated) value of
+    the first entry `get_entry` delivers with the wanted tag, 0 (the member initialiser) without one.  Loop
+    condition, the `get_entry(…) && tag == DT_VER*NUM` test, the increment and the `(Elf_Word)value`
+    conversion are the generated expressions handed in. -/
+def verCountGo (loopc : BitVec 64 → BitVec 64 → Bool) (hit : Bool → BitVec 64 → Bool)
+    (incr : BitVec 64 → BitVec 64) (trunc : BitVec 64 → BitVec 32) (n : BitVec 64) :
+    Nat → DynAcc → BitVec 64 → M (BitVec 32)
+  | 0, _, _ => pure 0
+  | fuel + 1, a, i =>
+    if loopc i n then
+      match a.getEntry i with
+      | .error f => .error f
+      | .ok (a', r) =>
+        -- `tag` is only read when `get_entry` returned true
+        let got : Bool × BitVec 64 × BitVec 64 := match r with
+          | .ok t v _ => (true, t, v)
+          | _ => (false, 0, 0)
+        if hit got.1 got.2.1 then pure (trunc got.2.2) else verCountGo loopc hit incr trunc n fuel a' (incr i)
+    else pure 0
+
+/-- `versym_r_section_accessor( elf, sec )` / `versym_d_section_accessor( elf, sec )` : the cached `entries_num`.
+    `dyn` = the dynamic accessor the constructor builds on `elf_file.sections[".dynamic"]` (`none`: no such
+    section, a null pointer) -/
+def verCount (need : Bool) (dyn : Option DynAcc) : M (BitVec 32) :=
+  if (if need then vr_ctor_nodyn dyn.isNone else vd_ctor_nodyn dyn.isNone) then pure 0 else
+  match dyn with
+  | none => pure 0
+  | some a0 =>
+    match a0.entriesNum with
+    | .error f => .error f
+    | .ok (a1, n) =>
+      if need then
+        verCountGo vr_ctor_loop vr_ctor_hit vr_ctor_i_incr vr_num_trunc (vr_ctor_count n) n.toNat a1 vr_ctor_i_init
+      else
+        verCountGo vd_ctor_loop vd_ctor_hit vd_ctor_i_incr vd_num_trunc (vd_ctor_count n) n.toNat a1 vd_ctor_i_init
 
 /-! ### the queries on a loaded object
 
